@@ -63,15 +63,10 @@ fn k_dn_parse() {
     }
 }
 
-/// K.fv.from.number -- from_field_type for the two numeric classes: same contract as DataNumber::parse
-/// with the signedness of the class, wrapped in FieldValue::DataNumber.
-#[kani::proof]
-#[kani::unwind(18)]
-fn k_fv_from_number() {
+fn number_check(signed: bool) {
     let buf: [u8; 17] = kani::any();
     let i = any_slice(&buf);
     let len: u16 = kani::any();
-    let signed: bool = kani::any();
     let class = if signed { FieldDataType::SignedDataNumber } else { FieldDataType::UnsignedDataNumber };
     let supported = matches!(len, 1 | 2 | 3 | 4 | 8 | 16);
     match FieldValue::from_field_type(i, class, len) {
@@ -100,6 +95,14 @@ fn k_fv_from_number() {
         Err(_) => { kani::cover!(true, "err"); assert!(!supported || (len as usize) > i.len()); }
     }
 }
+/// K.fv.from.unsigned / K.fv.from.signed -- from_field_type for the numeric classes: same contract as
+/// DataNumber::parse with the signedness of the class, wrapped in FieldValue::DataNumber.
+#[kani::proof]
+#[kani::unwind(18)]
+fn k_fv_from_unsigned() { number_check(false); }
+#[kani::proof]
+#[kani::unwind(18)]
+fn k_fv_from_signed() { number_check(true); }
 
 /// K.fv.from.ip4 -- 4 bytes, Ipv4Addr of the big-endian u32, independent of field_length
 #[kani::proof]
